@@ -1,3 +1,104 @@
-/- C13: property theorems (stub, not yet built) -/
+/-
+C13 — The launch request carries the scheduler's decision faithfully.
+
+Property theorems only; lemmas are in `Karp/Proofs/ReqSerial.lean`.
+Model: `Karp/Model/Req.lean` (`toSelectors` = Requirements.NodeSelectorRequirements, `fromSelectors` =
+NewNodeSelectorRequirementsWithMinValues, `anyAllowed` = the relation of Requirement.Any), and
+`Karp/Model/Template.lean` (what ToNodeClaim copies from the NodePool template).
+-/
+import Karp.Proofs.ReqSerial
+import Karp.Model.Template
+
 namespace Karp.C13
+open Karp.Req Karp.Spec.K8s
+
+/-! ## Requirements: what is written to the API admits exactly what the scheduler holds -/
+
+/-- **C13_roundtrip** — for every well-formed in-memory requirement (every operator combination per key:
+    value sets, exclusions, one or two numeric bounds, exclusions together with bounds, minValues), the entries
+    written to `NodeClaim.spec.requirements`, parsed back, give a requirement with the same key, the same
+    `minValues` floor and exactly the same admitted values. -/
+theorem C13_roundtrip (r : Req) (h : r.WF) (hk : normalizeKey r.key = r.key) :
+    ∃ r', fromSelectors r.toSelectors = .ok (some r') ∧ r'.key = r.key ∧ r'.minValues = r.minValues ∧
+      ∀ v, r'.has v = r.has v :=
+  roundtrip r h hk
+
+/-- the written entries, read with *Kubernetes* semantics (not Karpenter's parser), admit exactly the same values -/
+theorem C13_written_semantics (r : Req) (h : r.WF) (v : Val) : selHas r.toSelectors v = r.has v :=
+  selHas_toSelectors r h v
+
+/-- every written entry carries the requirement's key and `minValues` and has validated operands -/
+theorem C13_written_entries_valid (r : Req) (h : r.WF) : ∀ s ∈ r.toSelectors, s.ok r.key r.minValues :=
+  toSelectors_ok r h
+
+/-- **C13_any** — the value materialised for a custom label (`Requirement.Any`) is, for every random choice,
+    either empty (no label is set) or a value the requirement itself admits; the relation has no panic outcome
+    (a panic of the real code is a correspondence failure). -/
+theorem C13_any (r : Req) (h : r.WF) (out : Val) (ha : r.anyAllowed out = true) :
+    out = "" ∨ r.has out = true :=
+  any_sound r h out ha
+
+/-! ## Template: labels, taints, hash come from the NodePool template -/
+
+open Karp.Template in
+/-- **C13_template** — the NodeClaim built from a template keeps every template label (NodePool and NodeClass
+    labels are template labels) unless a resolved custom label has the same key, carries every resolved custom
+    label, copies taints and startup taints, carries the NodePool hash and hash version, and never serialises
+    a scheduling-simulation-only requirement key. -/
+theorem C13_template (t : Tmpl) (resolved : List (String × String)) :
+    (∀ k v, t.labels.lookup k = some v → resolved.lookup k = none → (toNodeClaim t resolved).labels.lookup k = some v) ∧
+    (∀ k v, resolved.lookup k = some v → (toNodeClaim t resolved).labels.lookup k = some v) ∧
+    (toNodeClaim t resolved).taints = t.taints ∧ (toNodeClaim t resolved).startupTaints = t.startupTaints ∧
+    (toNodeClaim t resolved).hash = t.hash ∧ (toNodeClaim t resolved).hashVersion = t.hashVersion ∧
+    (∀ k, simulationKeys.contains k = true → ((toNodeClaim t resolved).requirementKeys.contains k) = false) := by
+  refine ⟨?_, ?_, rfl, rfl, rfl, rfl, ?_⟩
+  · intro k v h1 h2; exact lookup_assign_left _ _ k v h1 h2
+  · intro k v h; exact lookup_assign_right _ _ k v h
+  · intro k hk; exact filtered_keys t resolved k hk
+
+open Karp.Template in
+/-- **C13_resolved_labels_admitted** — every custom label value materialised at NodeClaim creation is admitted by
+    the template's own requirement for that key (so the fresh NodeClaim does not contradict its NodePool). -/
+theorem C13_resolved_labels_admitted (t : Tmpl) (resolved : List (String × String))
+    (hwf : ∀ p ∈ t.reqs, p.2.WF) (hdist : ∀ k r, t.reqs.lookup k = some r → (k, r) ∈ t.reqs)
+    (h : resolvedAllowed t resolved = true) :
+    ∀ p ∈ resolved, ∃ r, t.reqs.lookup p.1 = some r ∧ r.has p.2 = true := by
+  intro p hp
+  simp only [resolvedAllowed, Bool.and_eq_true, List.all_eq_true] at h
+  have := h.1 p hp
+  obtain ⟨k, v⟩ := p
+  simp only [Bool.and_eq_true, bne_iff_ne, ne_eq] at this
+  obtain ⟨⟨_, hne⟩, hany⟩ := this
+  cases hl : t.reqs.lookup k with
+  | none => rw [hl] at hany; simp at hany
+  | some r =>
+    rw [hl] at hany
+    refine ⟨r, rfl, ?_⟩
+    rcases C13_any r (hwf _ (hdist k r hl)) v hany with h0 | h1
+    · exact absurd h0 hne
+    · exact h1
+
+/-- the facts the template model relies on -/
+theorem fact_simulation_keys :
+    Karp.Gen.Template.simulationKeys = [Karp.Gen.Template.initializedLabelKey, Karp.Gen.Template.registeredLabelKey] := by decide
+theorem fact_max_instance_types : Karp.Gen.Template.maxInstanceTypes = 600 := by decide
+
+/-! ## The defects that were repaired (machine-checked record)
+
+Before the repairs (commits 31fcbf8b2, 2c7eed267) `NotIn [5] ∩ Gt 2` was written as `Gte 3` only, and
+`Any()` panicked on `Lt 0` / could return an excluded value. -/
+
+def witness : Req := { key := "k", complement := true, values := ["5"], gte := some 3 }
+
+/-- the pre-repair serialisation (bounds only) admits "5", which the requirement excludes -/
+theorem C13_old_serialisation_drops_exclusion :
+    witness.has "5" = false ∧ selHas [{ key := "k", op := .gte, values := ["3"], minValues := none }] "5" = true := by decide
+
+/-! ## Non-vacuity -/
+
+example : witness.WF :=
+  ⟨⟨by intro g h; simp [witness] at h; subst h; decide, by intro g h; simp [witness] at h⟩, rfl, by simp [witness]⟩
+example : witness.toSelectors.length = 2 := by decide
+example : witness.anyAllowed "4" = true ∧ witness.anyAllowed "5" = false ∧ witness.anyAllowed "2" = false := by decide
+
 end Karp.C13
